@@ -336,13 +336,22 @@ package fzf
 //@ ensures forall(k, 0, len(result), fresh(result[k].text))
 //@ ensures forall(k, 1, len(result), result[k].prefixLength == result[k-1].prefixLength + clen(result[k-1].text))
 //@ ensures len(result) > 0 ==> result[0].prefixLength == ((delimiter.str == nil && delimiter.regex == nil) ? blanks(text, 0) : 0)
+// (regular-expression delimiter: field k ends with the k-th delimiter match; what follows the last match is one more
+//  field only if it is not empty - gl / gend: number of matches and end of the last one, taken when FindAllStringIndex has run)
+//@ ghost gl int
+//@ ghost gend int
+//@ ghost @after"locs := delimiter.regex.FindAllStringIndex(text, -1)" gl = len(locs)
+//@ ghost @after"locs := delimiter.regex.FindAllStringIndex(text, -1)" gend = (len(locs) > 0 ? locs[len(locs)-1][1] : 0)
+//@ ensures delimiter.str == nil && delimiter.regex != nil ==> len(result) == gl + (gend < len(text) ? 1 : 0)
 //@ loop 1
 //@   invariant 0 <= begin && begin <= len(text) && (iter == 0 ==> begin == 0) && (iter > 0 ==> begin == locs[iter-1][1]) && (tokens == nil || fresh(tokens))
+//@   invariant len(tokens) == iter && gl == len(locs) && gend == (len(locs) > 0 ? locs[len(locs)-1][1] : 0)
 //@   invariant forall(k, 0, len(tokens), len(tokens[k]) <= len(text))
 
 // Chars.ToString converts through unsafe.String / string([]rune): contract assumed.
 //@ package github.com/junegunn/fzf/src/util
 //@ func Chars.ToString trusted
+//@ ensures len(result) <= 4 * clen(chars) -- UTF-8: at most four bytes per character
 //@ package github.com/junegunn/fzf/src
 
 // StripLastDelimiter removes the trailing delimiter and trailing white space of a field: what is left is a
@@ -372,7 +381,7 @@ package fzf
 
 //@ func Transform
 //@ property C10
-//@ requires forall(k, 0, len(tokens), tokens[k].text != nil) && len(tokens) < 1073741824
+//@ requires forall(k, 0, len(tokens), tokens[k].text != nil) && len(tokens) < 2305843009213693952
 //@ requires forall(k, 0, len(withNth), -1073741824 < withNth[k].begin && withNth[k].begin < 1073741824 && -1073741824 < withNth[k].end && withNth[k].end < 1073741824)
 //@ ensures len(result) == len(withNth) && fresh(result)
 //@ ensures forall(k, 0, len(result), result[k].text != nil)
@@ -547,6 +556,19 @@ package fzf
 //@ pure
 //@ requires p != nil && item != nil
 //@ ensures forall(k, 0, len(result), result[k].text != nil && result[k].prefixLength >= 0)
+
+// The body of transformInput against a second contract (the one above is what callers use): the memo kept in the
+// item is valid for exactly one pattern revision - major and minor, change-nth bumps only the minor one - so what
+// is returned is either the memo made for this very revision or a fresh tokenisation, which becomes the memo.
+//@ func Pattern.transformInput region#2 @"<body>"
+//@ property C10
+//@ requires p != nil && item != nil && len(p.nth) < 1073741824 && clen(&item.text) < 536870912
+//@ requires forall(k, 0, len(p.nth), -1073741824 < p.nth[k].begin && p.nth[k].begin < 1073741824 && -1073741824 < p.nth[k].end && p.nth[k].end < 1073741824)
+//@ modifies item.transformed
+//@ ensures item.transformed != nil && item.transformed.revision.major == p.revision.major && item.transformed.revision.minor == p.revision.minor
+//@ ensures result == item.transformed.tokens
+//@ ensures old(item.transformed) != nil && old(item.transformed.revision.major) == p.revision.major && old(item.transformed.revision.minor) == p.revision.minor ==> item.transformed == old(item.transformed)
+//@ ensures !(old(item.transformed) != nil && old(item.transformed.revision.major) == p.revision.major && old(item.transformed.revision.minor) == p.revision.minor) ==> fresh(item.transformed) && fresh(result) && len(result) == len(p.nth)
 
 // Whole-line search (no --nth): a term hits when its matcher accepts the item's text.
 //@ spec func termHit(p *Pattern, text *util.Chars, ts []term, t int, wp bool) bool = accepts(mapget(p.procFun, ts[t].typ), ts[t].caseSensitive, ts[t].normalize, p.forward, text, ts[t].text, wp)
